@@ -46,6 +46,10 @@ CHECKS = {
    text="Proved in Coq (Reuse/Discipline.v) for any instance type whose fields are classified as reset (stored by the prologue of every entry point), configuration (never written by the body) or scratch (written by the body before it is read): after ANY history of calls, successful or not, the next call returns what a fresh instance with the same configuration returns (reuse_eq_fresh, history_eq_fresh). The classification of oj.Parser, oj.Validator, oj.Tokenizer, gen.Parser, sen.Parser, sen.Tokenizer, oj.Writer and sen.Writer is checked on every run against the struct definitions and the assignments of every entry method REGENERATED from /repo (C07_fields_covered: no unclassified field, every reset field assigned by every entry point). The write-before-read assumption on the bodies and the pooled package-level functions are decided by the history suite: 2-8 calls per history on one instance or through the pools, each call compared with a fresh instance, inputs that stop in every scratch state, failing readers and writers, panicking callbacks, option changes between calls; values returned earlier are re-inspected after every later call with the caller's buffers overwritten.",
    technique="Coq proof of history-independence under a field discipline + translator-regenerated field/assignment lists discharged by computation + call-history correspondence against fresh instances",
    design='6/C07'),
+ 'C08': dict(
+   text="Proved in Coq (Conc/Pool.v) for any number of threads, any programs and EVERY schedule, including the runtime dropping pooled instances at any moment: an instance taken from the pool is never owned by two threads nor owned while pooled (ownership invariant by induction over the schedule), and with instances under the C07 field discipline every finished thread holds exactly the results of running each of its calls alone on a fresh instance (schedule independence). The pool protocol of the real package-level functions is regenerated from oj/oj.go and sen/sen.go on every run and discharged by computation: every pool Get has a deferred Put on the same pool and no function returns the pooled writer's buffer. What a proof about the model cannot exhibit - that the real call bodies touch nothing but their instance, their arguments and immutable shared objects (jp.Expr, Script templates, struct-info caches under their mutex, the pre-registered recomposer) - is observed: 8-16 goroutines run seeded sequences of 30 kinds of calls with shared expressions, scripts, options and struct types under the Go race detector, each result is compared with the same sequence run alone, and every returned buffer is re-read at the end of the round.",
+   technique="Coq proof of pool ownership and schedule independence for all interleavings + regenerated pool-protocol facts + race-detector and sequential-equivalence correspondence runs",
+   design='6/C08'),
  'C18': dict(
    text="Proved in Coq for all typed simple trees (ten Go integer kinds, uint64 wrap made explicit) and both OmitNil settings: Simplify after Generify equals Decompose; on JSON-like data with nulls kept Decompose/Dup/Alter is the identity, hence the Generify/Simplify trip is the identity; Generify after Simplify gives the generic tree back; the writers see the same tree in a generic value and in its Simplify; Generify never leaves the int64 range. Deep copy is proved on a model of containers with identity (Alt/Store.v): a copy allocates a fresh identity for every container, denotes the same value, and an in-place mutation of any container of either tree leaves the other unchanged. Tied to the code on every run: alt.Generify/GenAlter/Decompose/Dup/Alter, Node.Simplify/Alter against the extracted functions on typed trees x OmitNil; writer text of gen tree vs Simplify for oj/sen/pretty; gen.Parser vs Generify(oj.Parser); the storage identities of every container of original and copy are observed (reflect pointers) and three in-place mutations are applied to every container of the copy and of the original for five copying operations.",
    technique="Coq proofs of the conversion laws and of copy independence on a store model + correspondence of the kind switches and observed container identities / mutate-after-copy experiments",
